@@ -7,6 +7,7 @@ import FianoModel.Uefi.RelayoutLemmas
 import FianoModel.Uefi.Guid
 
 namespace Fiano.Uefi
+open EditArith
 open Fiano
 
 /-! ### find at the root -/
